@@ -194,6 +194,12 @@ def run():
     logging.debug(f"Arguments: {args}")
     logging.info(f"Mapping Ports: {portmap}")
 
+    # a run starts from a clean state: the module-level containers would otherwise keep the previous run's data
+    server_ports[:] = [443, 44330]
+    keylog.clear()
+    sessions.clear()
+    quic_sessions.clear()
+
     server_ports.extend([int(x) for x in args.serverports])
     
 
